@@ -2,3 +2,5 @@
 import InfernoVerif.Model.Ring
 import InfernoVerif.Model.RingOps
 import InfernoVerif.Lemmas.Ring
+import InfernoVerif.Drv.Proto
+import InfernoVerif.Props.C01
